@@ -41,6 +41,10 @@ def main(tier):
     def add(src, path, what, resp=None):
         runs = [{"source": src, "path": path, "mode": "complete", "resp": resp or [{"k": "val", "v": 1}], "role": "rep"} for _ in range(K)]
         jobs.append({"id": len(jobs), "runs": runs}); metas.append({"kind": "repeat"}); descr.append(what)
+        if "order(" in src:
+            # the same body with every order answered through a host promise that is settled LATER: the awaits really suspend
+            for hm in ("deferred", "spurious"):
+                jobs.append({"id": len(jobs), "runs": [dict(r, host_mode=hm) for r in runs]}); metas.append({"kind": "repeat"}); descr.append(what.replace("/", "+" + hm + "/", 1) if "/" in what else what + "+" + hm)
     for nest in L.NEST:
         if nest in L.NEVER_COMPLETES: continue
         for mode in ("complete", "throw"):
